@@ -100,19 +100,19 @@ fn step<A: crate::util::ArrayLike<Item = u32>>(growable: bool) {
 }
 
 #[kani::proof]
-#[kani::unwind(7)]
+#[kani::unwind(20)]
 fn k_avec_array_step() {
     step::<[u32; CAP]>(false);
 }
 
 #[kani::proof]
-#[kani::unwind(7)]
+#[kani::unwind(20)]
 fn k_avec_box_step() {
     step::<Box<[u32; CAP]>>(false);
 }
 
 #[kani::proof]
-#[kani::unwind(7)]
+#[kani::unwind(20)]
 fn k_avec_vec_step() {
     step::<Vec<u32>>(true);
 }
